@@ -358,3 +358,49 @@ def run(ck, prog):
     _run_c18(ck, prog)
     order_agreement(ck, prog)
     ck.floor("E2-order", 1)
+
+
+def every_column_encoded(ck, prog):
+    """transform: within the loop over the categorical columns no path skips the per-row lookup loop
+    (a constant column still gets its indicator column and still rejects unseen values)"""
+    rule, inst = "E1-lookup-failure", "transform: every categorical column goes through the per-row lookup"
+    try:
+        b = prog.one(r"^preprocessing::categorical::OneHotEncoder::transform$")
+    except AnchorError as e:
+        ck.violation(rule, inst, "transform", "", expected="anchor exists", found=f"anchor vanished: {e}")
+        return
+    cx = BodyCtx.of(b)
+    be = sorted(guards.back_edges(b))
+    # the lookup discriminant switch (Some/None of a lookup result)
+    sites = []
+    for i, blk in enumerate(b.blocks):
+        t = blk["term"]
+        if blk["cleanup"] or i not in b.reach or t["k"] != "switch" or t["o"]["k"] not in ("copy", "move"):
+            continue
+        term = cx.res.operand(t["o"])
+        if term[0] == "discr" and not _is_iter_next(term[1]) and closure_calls(prog, term[1], LOOKUPS):
+            sites.append(i)
+    if not sites:
+        ck.violation(rule, inst, b.path, f"{b.loc[0]}:{b.loc[1]}", expected="a lookup inside the column loop", found="none")
+        return
+    s = sites[0]
+    headers = sorted({h for (u, h) in be if b.dominates(h, s)}, key=lambda h: len(b.dom[h]))
+    if len(headers) < 2:
+        ck.violation(rule, inst, b.path, b.where(s), expected="a per-row loop inside the per-column loop", found=f"{len(headers)} enclosing loops")
+        return
+    outer, inner = headers[0], headers[-1]
+    latches = [u for (u, h) in be if h == outer]
+    if all(b.dominates(inner, u) for u in latches):
+        ck.ok(rule, inst, b.path, b.where(s), "the per-row lookup loop dominates the column loop's latch")
+    else:
+        ck.violation(rule, inst, b.path, b.where(s), expected="no path of a column iteration bypasses the per-row lookup loop",
+                     found="a column iteration can continue with the next column without looking its values up")
+
+
+_run_c18b = run
+
+
+def run(ck, prog):
+    _run_c18b(ck, prog)
+    every_column_encoded(ck, prog)
+    ck.floor("E1-lookup-failure", 5)
